@@ -4,6 +4,17 @@
 // and comments only: the verif tag cannot change behaviour.
 package snapshots
 
+import (
+	"iter"
+
+	"reduction.dev/reduction/storage/locations"
+)
+
+// ghost model of the storage listing and of snapshot file names (C13)
+var ghostListing func(l locations.StorageLocation) iter.Seq2[string, error]
+var ghostIsSnap func(path string) bool
+var ghostSnapID func(path string) uint64
+
 func forall(lo, hi int, f func(int) bool) bool {
 	for i := lo; i < hi; i++ {
 		if !f(i) {
@@ -135,3 +146,20 @@ func forall(lo, hi int, f func(int) bool) bool {
 //@   property C12 C15
 //@   modifies s.state
 //@   ensures s.state.pendingSnapshot == nil && s.state.checkpointID == old(s.state.checkpointID) && same(s.state.completedSnapshots, old(s.state.completedSnapshots))
+
+// ---- restart (C13): the job resumes from the completed checkpoint with the
+// highest id present in its storage, whatever order the storage lists files in.
+// ghostListing: what the storage location lists (stable while LoadCheckpoint runs);
+// ghostSnapID / ghostIsSnap: the checkpoint id encoded in a snapshot file name.
+//@ func ext:locations.StorageLocation.List
+//@   trusted
+//@   modifies nothing
+//@   ensures same(result, ghostListing(self))
+
+//@ func Store.LoadCheckpoint
+//@   property C13 C12
+//@   exclusive
+//@   nosafety
+//@   requires s.savepointURI == ""
+//@   atcall SnapshotForURI: ghostIsSnap(arg0) && exists(0, seqlen(ghostListing(s.fileStore)), func(i int) bool { return seqat(ghostListing(s.fileStore), i) == arg0 }) &&
+//@          forall(0, seqlen(ghostListing(s.fileStore)), func(i int) bool { return ghostIsSnap(seqat(ghostListing(s.fileStore), i)) ==> ghostSnapID(seqat(ghostListing(s.fileStore), i)) <= ghostSnapID(arg0) })
